@@ -103,6 +103,10 @@ func c13Gen(t *rapid.T) c13Plan {
 			}
 		}
 	}
+	if p.BodyLen > 0 && rapid.IntRange(0, 5).Draw(t, "expect") == 0 {
+		// the client announces its body and sends it without waiting (as it may): the announcement is an end-to-end field
+		p.Headers = c13AddHeader(p.Headers, c13Header{Name: "Expect", Value: "100-continue"})
+	}
 	p.Status = rapid.SampledFrom(c13Statuses).Draw(t, "status")
 	nr := rapid.IntRange(0, 8).Draw(t, "nrheaders")
 	for i := 0; i < nr; i++ {
@@ -539,6 +543,11 @@ func c13Run(t *testing.T, p c13Plan) (res vfResult) {
 			res.label("proxy-write-returns-late")
 		}
 		res.label("rframing:" + p.RFraming)
+		for _, h := range p.Headers {
+			if textproto.CanonicalMIMEHeaderKey(h.Name) == "Expect" {
+				res.label("request-with-expect-100-continue")
+			}
+		}
 		if p.Early {
 			res.label("interim-103-before-final")
 		}
